@@ -118,7 +118,13 @@ def render(spec):
             elif k == "neg":
                 kind, j = st[1], st[2]
                 p = import_path(spec, i, j)
-                if kind.endswith("_infn"):
+                if kind.endswith("_inblock"):
+                    # the import statement itself sits inside a block, and the write attempt in the same block
+                    kind = kind[:-8]
+                    L.append("if 1 == 1 {")
+                    L.append("import %s" % p)
+                    NEG_CLOSE = True
+                elif kind.endswith("_infn"):
                     # the same statement inside a function body of the importer (never called: it must not compile)
                     kind = kind[:-5]
                     L.append("negf = fn() {")
@@ -220,6 +226,8 @@ def _neg_line(spec, i):
             kind, j = st[1], st[2]
             if kind.endswith("_infn"):
                 kind = kind[:-5]
+            if kind.endswith("_inblock"):
+                kind = kind[:-8]
             p = import_path(spec, i, j)
             return {"import_hidden_typed": "import hidt%d from %s" % (j, p), "import_hidden_const": "import hidc%d from %s" % (j, p),
                     "dot_hidden_typed": "print %s.hidt%d" % (mod_name(spec, j), j), "dot_hidden_const": "print %s.hidc%d" % (mod_name(spec, j), j),
@@ -328,7 +336,14 @@ def generate(rng, max_mods=5, negative=False):
                 # the same write attempts from inside a function body of the importer
                 kinds += ["assign_member_infn", "assign_member_infn", "opassign_member_infn", "opassign_member_mod_infn",
                           "assign_fn_member_infn", "dot_hidden_infn"]
-            spec["mods"][i]["stmts"].append(["neg", rng.choice(kinds), j])
+            # the module is imported in module form INSIDE a block only (at the top level the file imports its names at most), and
+            # written to in that block
+            block_cands = [(a, int(b)) for a in range(n) for b, fs in spec["mods"][a]["imported"].items() if not bare[int(b)] and "mod" not in fs]
+            if block_cands and rng.chance(1, 5):
+                i, j = rng.choice(block_cands)
+                spec["mods"][i]["stmts"].append(["neg", rng.choice(["assign_member_inblock", "opassign_member_inblock", "assign_fn_member_inblock"]), j])
+            else:
+                spec["mods"][i]["stmts"].append(["neg", rng.choice(kinds), j])
     for m in spec["mods"]:
         m.pop("imported", None)
     return spec
@@ -367,7 +382,10 @@ def valid(spec):
             elif st[0] == "neg":
                 if not any(s[1] == st[2] for s in seen):
                     return False
-                if (st[1].endswith("_infn") or st[1] in ("dot_hidden", "dot_hidden_typed", "dot_hidden_const", "assign_module", "assign_member", "assign_fn_member") or st[1].startswith("opassign_member")) and (st[2], "mod") not in seen:
+                if st[1].endswith("_inblock"):
+                    if (st[2], "mod") in seen:
+                        return False
+                elif (st[1].endswith("_infn") or st[1] in ("dot_hidden", "dot_hidden_typed", "dot_hidden_const", "assign_module", "assign_member", "assign_fn_member") or st[1].startswith("opassign_member")) and (st[2], "mod") not in seen:
                     return False
         if not state and any(s[0] in ("defvia",) for s in m["stmts"]):
             return False
